@@ -11,7 +11,7 @@ EXTENDS LexProps, TLC, Json
 CONSTANT MaxLex, Emit
 
 Lexemes == { B("PRINT"), B("GO"), B("TO"), B("GOSUB"), B("IF"), B("THEN"), B("FOR"),
-             B("OR"), B("NOT"), B("SC"), B("E"), B("x"), B("1"), B("5"), B("."), B("\""),
+             B("OR"), B("NOT"), B("SC"), B("E"), B("x"), B("1"), B("5"), B("0"), B("."), B("\""),
              B("<"), B(">"), B("="), B(":"), B(","), B("$"), B(" "), B("+"), <<195, 169>>,
              B("REM"), B("DATA"), B("data "), B("("), B("x1") }
 
